@@ -93,8 +93,17 @@ def finish(prop, ctx, tie_broken_search_done):
     violations = 0
     if ctx.failures:
         f = ctx.failures[0]
+        small, what, tries = f["case"], f["what"], 0
+        if hasattr(prop, "check_case") and isinstance(f["case"], dict):
+            import shrink
+            try:
+                small, what, tries = shrink.shrink(prop, lambda: Ctx(pid, ctx.tier, ctx.seed, quiet=True), f["case"], f["what"])
+            except Exception:  # noqa
+                small, what = f["case"], f["what"]
+        f = {"what": what, "case": small, "key": f.get("key")}
         path = core.write_replay(pid, {"property": pid, "kind": "oracle", "what": f["what"], "case": f["case"],
-                                       "seed": ctx.seed, "tier": ctx.tier, "others": len(ctx.failures) - 1})
+                                       "seed": ctx.seed, "tier": ctx.tier, "others": len(ctx.failures) - 1,
+                                       "shrink_attempts": tries})
         lines.append("VIOLATION property={} replay={}".format(pid, path))
         lines.append("  " + f["what"])
         violations = len(ctx.failures)
